@@ -5,9 +5,11 @@ package fosite
 
 import (
 	"context"
+	"encoding/json"
 	"fmt"
 	"io"
 	"net/http"
+	"strconv"
 	"strings"
 	"time"
 
@@ -30,6 +32,27 @@ func wrapSigningKeyFailure(outer *RFC6749Error, inner error) *RFC6749Error {
 		return outer.WithHintf("%s %s", outer.Reason(), e.Reason())
 	}
 	return outer
+}
+
+// requestObjectClaimToFormValue renders a claim of a request object the way the same parameter would look in the
+// query string. Numbers and booleans are legal JSON values of claims such as max_age; formatting them with %s
+// turned them into "%!s(float64=60)", which no handler could parse, so the parameter was silently ignored.
+func requestObjectClaimToFormValue(v interface{}) string {
+	switch x := v.(type) {
+	case string:
+		return x
+	case float64:
+		return strconv.FormatFloat(x, 'f', -1, 64)
+	case json.Number:
+		return x.String()
+	case int64:
+		return strconv.FormatInt(x, 10)
+	case int:
+		return strconv.Itoa(x)
+	case bool:
+		return strconv.FormatBool(x)
+	}
+	return fmt.Sprintf("%s", v)
 }
 
 func (f *Fosite) authorizeRequestParametersFromOpenIDConnectRequest(ctx context.Context, request *AuthorizeRequest, isPARRequest bool) error {
@@ -152,7 +175,7 @@ func (f *Fosite) authorizeRequestParametersFromOpenIDConnectRequest(ctx context.
 	}
 
 	for k, v := range claims {
-		request.Form.Set(k, fmt.Sprintf("%s", v))
+		request.Form.Set(k, requestObjectClaimToFormValue(v))
 	}
 
 	claimScope := RemoveEmpty(strings.Split(request.Form.Get("scope"), " "))
